@@ -116,8 +116,10 @@ def gen_history(rng):
             ops.append(['gc'])
         elif r < 0.88:
             ops.append(['clear'])
-        elif r < 0.94:
+        elif r < 0.91:
             ops.append(['define', rng.choice(['Late', 'Other']), rng.randint(0, 3)])
+        elif r < 0.95:
+            ops.append(rng.choice([['th_cls', rng.choice(['Late', 'Other'])], ['sub_cls', 'Late', 'Other'], ['sub_cls', 'Late', 'Late']]))
         else:
             ops.append(['fwd', rng.choice(['Late', 'Other']), rng.choice(['Late', 'Other']), rng.random() < 0.3])
     return {'mode': 'history', 'ops': ops}
@@ -143,6 +145,9 @@ SCENARIOS = [
     # redefinition of a same-named class
     {'mode': 'history', 'ops': [['define', 'Late', 1], ['fwd', 'Late', 'Late', True], ['define', 'Late', 2],
                                 ['fwd', 'Late', 'Late', True]]},
+    # a redefined class has the name and the repr of the old one
+    {'mode': 'history', 'ops': [['define', 'Late', 1], ['th_cls', 'Late'], ['sub_cls', 'Late', 'Late'], ['define', 'Late', 2],
+                                ['th_cls', 'Late'], ['define', 'Other', 1], ['sub_cls', 'Late', 'Other'], ['gc'], ['th_cls', 'Late']]},
     # Literal[1] and Literal[True] are equal-looking keys
     {'mode': 'history', 'ops': [['is_bearable', ['literal', [['int', 1]]], ['bool', True]],
                                 ['is_bearable', ['literal', [['bool', True]]], ['int', 1]],
